@@ -268,6 +268,8 @@ class Mirror:
             self.copy_base = len(self.objs)
             self.copy(o)
             return {"ok": None}, []
+        if k == "setitem":                       # Collection.__setitem__ with a new key (or on a frozen target)
+            k, op = "set", ["set", o, str(op[2]), op[3]]
         if k in ("set", "append"):
             if ob.kind != "tuple" and ob.frozen:
                 return {"exc": "AssertionError"}, ["rejected"]
@@ -430,6 +432,8 @@ class Gen:
                 return None
             names = (CLASSES[ob.cls] + MODEL_EXTRA) if ob.kind == "model" else COLL_KEYS
             name = r.choice([n for n in names if n != "pos"] or names)
+            if ob.kind == "coll" and (ob.frozen or ob.get(name) is None) and r.random() < 0.4:
+                return ["setitem", o, name, self.leafval()]
             if r.random() < 0.3:
                 cands = [i for i in pms if o not in m.reach(i) and m.depth(i) + self.height_above(o) <= 5]
                 if cands:
@@ -590,7 +594,7 @@ def oracle(case, res):
     for i, (op, r) in enumerate(zip(case["ops"], res["outs"])):
         k = op[0]
         target = None
-        if k == "set":
+        if k in ("set", "setitem"):
             target = m.set_target(op[1], op[2])
         elif k in ("append", "del", "failwalk"):
             target = op[1]
@@ -664,7 +668,7 @@ def nontrivial(case):
         k = op[0]
         if k == "freeze":
             froze = True
-        elif froze and k in ("set", "append", "del", "unfreeze", "copy", "failwalk"):
+        elif froze and k in ("set", "setitem", "append", "del", "unfreeze", "copy", "failwalk"):
             changed = True
         elif k == "query" and froze and changed:
             return True
@@ -752,7 +756,7 @@ def cop(op):
         return "OFreeze %d" % op[1]
     if k == "unfreeze":
         return "OUnfreeze %d" % op[1]
-    if k == "set":
+    if k in ("set", "setitem"):
         return "OSet %d %s (%s)" % (op[1], cs(op[2]), cval(op[3]))
     if k == "append":
         return "OAppend %d (%s)" % (op[1], cval(op[2]))
